@@ -73,7 +73,7 @@ def run(rep, tier):
     os.makedirs(tmp, exist_ok=True)
     teams = [1, 2, 3, 4, 7, 16, 32] if thorough else [1, 2, 3, 16]
     for (sh, m, e, f) in cases:
-        args = oc.case_args(sh, m, e, f, 0, 2)
+        args = oc.case_args(sh, m, e, f, 0, 2, caches=(0, 0) if m == 1 else (1, 1))     # give: also the uncached code branches
         args[args.index("--maxIterations") + 1] = "3"
         res = {}
         for T in teams:
